@@ -50,4 +50,5 @@ for m in sorted(glob.glob(os.path.join(root, "ascmhl", "*.mhl"))):
             dates.append(el.attrib["hashdate"])
         if el.tag.endswith("creationdate") and el.text:
             dates.append(el.text)
-print(json.dumps({"exit": r.exit_code, "exc": exc, "dates": dates, "shown": SIM["shown"]}))
+names = sorted(os.path.basename(m) for m in glob.glob(os.path.join(root, "ascmhl", "*.mhl")))
+print(json.dumps({"exit": r.exit_code, "exc": exc, "dates": dates, "shown": SIM["shown"], "names": names}))
